@@ -747,3 +747,122 @@ theorem run_unq (n : Nat) : ∀ (r : Reader) (pos : Nat) (bom : Bom) (d junk : B
           rw [this]; exact h2
 
 end Jomini.TextReader
+
+namespace Jomini.TextReader
+open Jomini Jomini.TextReader.Spec
+
+/-! ### the reference step and skipped prefixes -/
+
+def shiftStep (k : Nat) : Step1 → Step1
+  | .tok adv t b => .tok (adv + k) t b
+  | .end_ b => .end_ b
+  | .eof a b => .eof (a + k) b
+
+theorem shiftScan_zero (s : Scan) : shiftScan 0 s = s := by cases s <;> simp [shiftScan]
+
+theorem tokenAt_carry_le {c : UInt8} {r : Bytes} {j : Nat} {st : PState} {carry off : Nat}
+    (h : tokenAt c r j = .refill st carry off) : carry ≤ r.length + 1 := by
+  rcases tokenAt_refill h with ⟨_, h2, _⟩ | ⟨_, _, h2⟩ | ⟨_, _, h2, _⟩
+  · omega
+  · have := (quoteScan_more h2).2.1; omega
+  · omega
+
+/-- value of the scan on a tail shape -/
+theorem fbLoop_tail {pos0 : Bool} {j : Nat} {bom : Bom} {tail : Bytes} (ht : Tail pos0 j bom tail) :
+    (tail = [] ∧ fbLoop pos0 tail .top j bom = (bom, .refill .none 0 0)) ∨
+    (∃ a, tail = 35 :: a ∧ fbLoop pos0 tail .top j bom = (bom, .refill .none tail.length 0)) ∨
+    (∃ c r bomR, tail = c :: r ∧ (c == 35) = false ∧ ((c == 0xef) = false → bomR = bom) ∧
+        ∀ x, fbLoop pos0 (tail ++ x) .top j bom = (bomR, tokenAt c (r ++ x) j)) ∨
+    (∃ r, tail = 0xef :: r ∧ r.length < 2 ∧ BomCheck pos0 0xef j bom ∧ fbLoop pos0 tail .top j bom = (bom, .bomFill)) := by
+  cases ht with
+  | empty => left; exact ⟨rfl, by simp [fbLoop]⟩
+  | comment a ha =>
+    right; left
+    refine ⟨a, rfl, ?_⟩
+    rw [fbLoop_top_cons]
+    simp only [show isBlank 35 = false by decide, Bool.false_eq_true, if_false, beq_self_eq_true, if_true]
+    rw [fbLoop_comment_open pos0 a ha]
+    simp; omega
+  | token c r hb h35 hbc =>
+    right; right; left
+    refine ⟨c, r, bomAfter c bom, rfl, h35, ?_, ?_⟩
+    · intro he; simp [bomAfter, he]
+    · intro x; exact fbLoop_token hb h35 hbc
+  | bomShort r hbc hr =>
+    right; right; right
+    exact ⟨r, rfl, hr, hbc, fbLoop_bomShort hbc hr⟩
+  | bomNo d e r hbc hn =>
+    right; right; left
+    refine ⟨0xef, d :: e :: r, .notPresent, rfl, by decide, by intro h; simp at h, ?_⟩
+    intro x
+    exact fbLoop_bomNo hbc hn
+
+theorem fbLoop_refill_carry {pos0 : Bool} {w : Bytes} {bom bom' : Bom} {st : PState} {carry off : Nat}
+    (h : fbLoop pos0 w .top 0 bom = (bom', .refill st carry off)) : carry ≤ w.length := by
+  obtain ⟨pre, tail, bom_s, rfl, hs, ht⟩ := decompose pos0 w.length w 0 bom (Nat.le_refl _)
+  rw [hs.fbLoop] at h
+  simp only [Nat.zero_add] at h ht
+  rcases fbLoop_tail ht with ⟨_, h1⟩ | ⟨a, _, h1⟩ | ⟨c, r, bomR, rfl, _, _, h1⟩ | ⟨r, _, _, _, h1⟩
+  · rw [h1] at h; simp at h; omega
+  · rw [h1] at h; simp at h; simp; omega
+  · have := h1 []; simp only [List.append_nil] at this
+    rw [this] at h; simp only [Prod.mk.injEq] at h
+    have := tokenAt_carry_le h.2; simp; omega
+  · rw [h1] at h; simp at h
+
+theorem interp_shift (pre y : Bytes) (b : Bom) (s : Scan)
+    (hc : ∀ st carry off, s = .refill st carry off → carry ≤ y.length) :
+    interp (pre ++ y) (b, shiftScan pre.length s) = (interp y (b, s)).map (shiftStep pre.length) := by
+  cases s with
+  | tok adv t => simp [shiftScan, interp, shiftStep]
+  | bomFill => simp [shiftScan, interp]
+  | refill st carry off =>
+    have hc := hc st carry off rfl
+    have e1 : (pre ++ y).length - carry = pre.length + (y.length - carry) := by simp; omega
+    have e2 : (pre ++ y).drop (pre.length + (y.length - carry)) = y.drop (y.length - carry) := by
+      rw [List.drop_append]; simp
+    cases st with
+    | none =>
+      simp only [shiftScan, interp]
+      split
+      · simp [shiftStep]
+      · rw [e1, e2]
+        cases y.drop (y.length - carry) with
+        | nil => simp
+        | cons c _ => simp only; split <;> simp [shiftStep]; omega
+    | quote => simp only [shiftScan, interp, e1]; simp [shiftStep]; omega
+    | unquoted => simp only [shiftScan, interp, e1, e2]; simp [shiftStep]; omega
+
+/-- **skipped bytes do not matter**: the reference step on `pre ++ y`, where the scan passes over all of
+`pre`, is the reference step on `y` for a reader that is no longer at position 0, shifted by `|pre|`. -/
+theorem spec_skip {pos0 : Bool} {pre : Bytes} {bom bom_s : Bom} (hs : Skips pos0 pre 0 bom bom_s) (hne : pre ≠ [])
+    (y : Bytes) : specStep pos0 bom (pre ++ y) = (specStep false bom_s y).map (shiftStep pre.length) := by
+  have hk : 0 < pre.length := by cases pre with | nil => exact absurd rfl hne | cons _ _ => simp
+  have h1 : fbLoop pos0 (pre ++ y) .top 0 bom =
+      ((fbLoop false y .top 0 bom_s).1, shiftScan pre.length (fbLoop false y .top 0 bom_s).2) := by
+    rw [hs.fbLoop]
+    have := fbLoop_shift pos0 pre.length hk y.length y .top 0 bom_s (Nat.le_refl _)
+    simpa [shiftMode] using this
+  -- a reader that is not at position 0 never asks for the BOM refill
+  have hnb : (fbLoop false y .top 0 bom_s).2 ≠ .bomFill := by
+    obtain ⟨p2, t2, b2, rfl, hs2, ht2⟩ := decompose false y.length y 0 bom_s (Nat.le_refl _)
+    rw [hs2.fbLoop]
+    simp only [Nat.zero_add] at ht2 ⊢
+    rcases fbLoop_tail ht2 with ⟨_, h1⟩ | ⟨a, _, h1⟩ | ⟨c, r, bomR, rfl, _, _, h1⟩ | ⟨r, _, _, hbc, _⟩
+    · rw [h1]; simp
+    · rw [h1]; simp
+    · have := h1 []; simp only [List.append_nil] at this; rw [this]; exact tokenAt_not_bomFill _ _ _
+    · exact absurd hbc.2.2.2 (by simp)
+  generalize hres : fbLoop false y .top 0 bom_s = res at h1 hnb
+  obtain ⟨b, s⟩ := res
+  simp only at h1 hnb
+  have hcar : ∀ st carry off, s = .refill st carry off → carry ≤ y.length := by
+    intro st carry off hh; subst hh; exact fbLoop_refill_carry hres
+  unfold specStep
+  rw [h1, hres]
+  cases s with
+  | bomFill => exact absurd rfl hnb
+  | tok adv t => simpa [shiftScan] using interp_shift pre y b (.tok adv t) hcar
+  | refill st carry off => simpa [shiftScan] using interp_shift pre y b (.refill st carry off) hcar
+
+end Jomini.TextReader
